@@ -176,7 +176,13 @@ package transport
 //@ trusted (*sync.Mutex).Unlock()
 //@   nopanic
 //@   pure
-//@ func (SSE).Do [C03,C10,C05]
+//@ func (SSE).Do [C03,C10,C05,C12]
+//@   ghost held = false
+//@   at `c.mu.Lock()` ghost held = true
+//@   at `c.mu.Unlock()` ghost held = false
+//@   callsite writeJsonWithSSE: requires held
+//@   at `fmt.Fprint(w, "event: complete\n\n")` requires held
+//@   at! `c.write(func() { fmt.Fprint(w, "event: complete\n\n") })` requires calls(DispatchOperation) + calls(DispatchError) == 1
 //@   ghost drained = false
 //@   at `responses(ctx)` ghost drained = callres0 == nil
 //@   ensures @C05 calls(DispatchOperation) >= 1 ==> drained
@@ -190,6 +196,7 @@ package transport
 
 // ---------------------------------------------------------------- multipart/mixed
 //@ trusted (net/http.Flusher).Flush()
+//@   modifies nothing
 //@ trusted newMultipartResponseAggregator(w, boundary, d) (a)
 //@   ensures a != nil
 //@ trusted (*multipartResponseAggregator).Done(w)
@@ -474,3 +481,87 @@ package transport
 //@   at! `ctx.Done()` requires true
 //@   at `closeReasonForContext(ctx)` requires arg0 == ctx
 //@   ensures calls(close) == 1
+
+// ---------------------------------------------------------------- C12: streamed responses (sequential facts only)
+// SSE: the ResponseWriter is shared between the event loop and the keep-alive goroutine. Every write to it
+// (event, completion marker, ping) and every Flush happens while holding the connection mutex, so a ping can never
+// be spliced into an event. (ghost `held`: Lock sets it, Unlock clears it.)
+//@ trusted (*time.Ticker).Stop()
+//@   modifies nothing
+//@ trusted (*time.Ticker).Reset(d)
+//@   modifies nothing
+//@ trusted (context.Context).Done() (ch)
+//@   pure
+// c.write(f): runs f and the flush while holding the connection mutex (released on every exit, also if f panics).
+//@ trusted dyn:f()
+//@ func (*sseConnection).write [C12]
+//@   requires c != nil
+//@   ghost held = false
+//@   at `c.mu.Lock()` ghost held = true
+//@   at `defer c.mu.Unlock()` requires held
+//@   at! `f()` requires held
+//@   callsite Flush: requires held
+//@   ensures calls(Lock) == 1 && calls(Unlock) == 1
+//@   ensures !panicked ==> calls("dyn:f") == 1 && calls(Flush) == 1
+//@   runs f with held = true
+//@ func (*sseConnection).keepAlive [C12]
+//@   requires c != nil
+//@   replay sseWrites.go.tmpl
+//@   ghost held = false
+//@   callsite Fprintf: requires held
+//@   callsite Fprint: requires held
+//@   callsite Flush: requires held
+//@   ensures !held
+//@ func (*sseConnection).flush [C12]
+//@   requires c != nil
+//@   ghost held = false
+//@   at `c.mu.Lock()` ghost held = true
+//@   at `c.mu.Unlock()` ghost held = false
+//@   callsite Flush: requires held
+//@   ensures calls(Lock) == 1 && calls(Unlock) == 1 && calls(Flush) == 1 && !held
+//@ func writeJsonWithSSE [C12]
+//@   ensures calls(Fprintf) == 1 && calls(Marshal) == 1
+
+// multipart/mixed aggregator: everything is read and written under the aggregator's mutex; nothing pending means
+// nothing written; the initial payload is written at most once (then cleared), the pending incremental payloads
+// at most once in one `incremental` array (then cleared); every flush that wrote something ends with a delimiter,
+// the closing one iff the last payload written had no next.
+//@ trusted writeBoundary(w, boundary, final)
+//@   modifies nothing
+//@ trusted writeContentTypeHeader(w)
+//@   modifies nothing
+//@ trusted writeIncrementalJson(w, responses, hasNext)
+//@   modifies nothing
+//@ trusted writeJson(w, response)
+//@   modifies nothing
+//@ trusted fmt.Fprintf(w, format, a) (n, err)
+//@   nopanic
+//@   pure
+//@ trusted (net/http.Flusher).Flush()
+//@   modifies nothing
+//@ func (*multipartResponseAggregator).flush [C12]
+//@   requires a != nil
+//@   ghost held = false
+//@   ghost lastFinal = false
+//@   at `a.mu.Lock()` ghost held = true
+//@   at `defer a.mu.Unlock()` requires held
+//@   callsite writeBoundary: requires held
+//@   callsite writeContentTypeHeader: requires held
+//@   callsite writeJson: requires held && arg1 == a.initialResponse && arg1 != nil
+//@   callsite writeIncrementalJson: requires held && arg1 == a.deferResponses && len(arg1) > 0
+//@   callsite Flush: requires held
+//@   at `assign a.initialResponse` requires rhs0 == nil && calls(writeJson) == 1
+//@   at `assign a.deferResponses` requires rhs0 == nil && calls(writeIncrementalJson) == 1
+//@   at `writeBoundary(w, a.boundary, !hasNext)` ghost lastFinal = arg2
+//@   at `writeBoundary(w, a.boundary, !hasNext)` requires arg2 == !hasNext
+//@   ensures old(a.initialResponse) == nil && old(len(a.deferResponses)) == 0 ==> calls(writeBoundary) == 0 && calls(writeJson) == 0 && calls(writeIncrementalJson) == 0 && calls(Flush) == 0
+//@   ensures calls(writeJson) <= 1 && calls(writeIncrementalJson) <= 1
+//@   ensures calls(writeJson) + calls(writeIncrementalJson) >= 1 ==> calls(Flush) == 1 && a.initialResponse == nil && len(a.deferResponses) == 0
+//@   ensures calls(Lock) == 1 && calls(Unlock) == 1
+//@ func (*multipartResponseAggregator).Add [C12]
+//@   requires a != nil
+//@   ghost held = false
+//@   at `a.mu.Lock()` ghost held = true
+//@   at `append(a.deferResponses, resp)` requires held && arg1 == resp
+//@   at `assign a.initialResponse` requires held && rhs0 == resp && initialResponse
+//@   ensures calls(Lock) == 1 && calls(Unlock) == 1
